@@ -53,6 +53,18 @@ int main(int argc, char **argv)
   printf("\nRESULT len=%zu T=%d cmode=%d hmode=%d enc=%d verify=%d dec=%d same=%d outlen=%zu cipherlen=%zu expected_cipherlen=%zu\n", len, T, cm, hm, enc, ver, dec, same, b.size(), clen, (size_t)(48 + 20 * T + 16 * (len / 16 + 1)));
   unlink("plain"); unlink("cipher"); unlink("back"); rmdir(dir);
   bool tampered = argc >= 8;
+  if (tampered && atol(argv[6]) == 40)
+  { // the battery's header offset 40 is a tag byte for SHA-256 and a reserved byte otherwise: also try 43 and 47, which lie behind the tag for every tag length
+    // (reserved, not authenticated, read by nobody: verify and decrypt must still agree on such a file)
+    if (chdir("/")) return 2;      // this run's scratch directory is gone already
+    for (int off = 43; off <= 47; off += 4)
+    {
+      char cmd[512]; snprintf(cmd, sizeof cmd, "'%s' roundtrip %s %s %s %s %d %s", argv[0], argv[2], argv[3], argv[4], argv[5], off, argv[7]);
+      fflush(stdout);
+      int rc = system(cmd);
+      if (rc != 0) { printf("RESULT (same run with the byte at header offset %d overwritten instead) failed\n", off); return 1; }
+    }
+  }
   if (!tampered) return (enc && ver && dec && same) ? 0 : 1;
   if (ver != dec) return 1;                       // C12
   if (dec && !same) return 1;                     // C05: success with different plaintext
